@@ -351,21 +351,27 @@ theorem getLast_head {α} (l : List α) (h : l.length ≤ 1) : l.getLast? = l.he
   | [a], _ => rfl
   | a :: b :: r, h => simp at h
 
-/-- an element whose content is nothing, or one text without blanks at its ends -/
-def plainText (n : Node) : Bool :=
+/-- an element that holds character data only: nothing, or one text node; where the reader trims
+    (`trim`), a text without blanks at its ends -/
+def plainText (trim : Bool) (n : Node) : Bool :=
   match n.children with
   | [] => true
-  | [.text s] => s ≠ [] && trimWs s == s
+  | [.text s] => !trim || trimWs s == s
   | _ => false
 
-theorem lastText_plain (n : Node) (h : plainText n = true) : lastText true n = n.ownText := by
+theorem lastText_plain (trim : Bool) (n : Node) (h : plainText trim n = true) : lastText trim n = n.ownText := by
   unfold plainText at h
   unfold lastText textEvents Node.ownText
   split at h
   · rename_i hc; simp [hc]
   · rename_i s hc
-    simp only [Bool.and_eq_true, beq_iff_eq, decide_eq_true_eq] at h
-    simp [hc, h.2, h.1]
+    have e : (if trim = true then trimWs s else s) = s := by
+      cases trim with
+      | false => rfl
+      | true => simpa using h
+    by_cases hs : s = []
+    · subst hs; simp [hc, e]
+    · simp [hc, e, hs]
   · simp at h
 
 theorem stripPlus_digits (t : Text) (h2 : t.all Char.isDigit = true) : stripPlus t = t := by
@@ -379,8 +385,31 @@ theorem stripPlus_digits (t : Text) (h2 : t.all Char.isDigit = true) : stripPlus
     · rename_i r' heq; injection heq with a _; exact absurd a hc
     · rfl
 
-theorem parseUsize_digits (t : Text) (h2 : t.all Char.isDigit = true) : parseUsize t = natOf t := by
-  unfold parseUsize natOf
-  simp only [stripPlus_digits t h2]
+/-- an unsigned decimal below `bound` -/
+def uintOk (bound : Nat) (s : Text) : Bool :=
+  match natOf s with
+  | some n => decide (n < bound)
+  | none => false
+
+theorem natOf_some (s : Text) (n : Nat) (h : natOf s = some n) :
+    s ≠ [] ∧ s.all Char.isDigit = true ∧ s.foldl (fun a c => 10 * a + (c.toNat - 48)) 0 = n := by
+  unfold natOf at h
+  split at h
+  · rename_i hc; injection h with h; exact ⟨hc.1, hc.2, h⟩
+  · cases h
+
+theorem parseUInt_of_natOf (bound : Nat) (s : Text) (n : Nat) (h : natOf s = some n) (hb : n < bound) :
+    parseUInt bound s = some n := by
+  obtain ⟨h1, h2, h3⟩ := natOf_some s n h
+  unfold parseUInt
+  simp only [stripPlus_digits s h2, h1, h2, h3, hb, ne_eq, not_false_eq_true, and_self, if_true]
+
+theorem uintOk_parse (bound : Nat) (s : Text) (h : uintOk bound s = true) :
+    ∃ n, natOf s = some n ∧ parseUInt bound s = some n := by
+  unfold uintOk at h
+  split at h
+  · rename_i n hn
+    exact ⟨n, hn, parseUInt_of_natOf bound s n hn (by simpa using h)⟩
+  · cases h
 
 end Umya.Reader.Lemmas
